@@ -8,14 +8,40 @@ import sys
 from . import model, repo
 
 
+ENVIRONMENTS = __import__('collections').Counter()
+
+
 def cli(args, timeout=120, env=None, cwd=None, hashseed=None):
     """Run the real command line, un-instrumented, in a fresh process."""
     e = dict(os.environ)
     e.pop('TREETOOLS_VERIF', None)
     e['PYTHONDONTWRITEBYTECODE'] = '1'
     e['PYTHONIOENCODING'] = 'utf-8'
-    if hashseed is not None:
-        e['PYTHONHASHSEED'] = str(hashseed)
+    # what is not part of the input varies from call to call (decided by the
+    # arguments that are not paths, so that a replay meets the same
+    # environment): the hash seed, the locale of the process (a plain C locale
+    # without UTF-8 mode: open() without an encoding would mean ASCII), and
+    # whether the files are named by absolute paths or relative to the
+    # working directory
+    import zlib
+    args = list(args)
+    h = zlib.crc32(' '.join(a for a in args if not a.startswith('/'))
+                   .encode('utf-8'))
+    if hashseed is None:
+        hashseed = (0, 1, 2, 3, 4711)[h % 5]
+    e['PYTHONHASHSEED'] = str(hashseed)
+    if (h // 5) % 4 == 0:
+        e.update(LC_ALL='C', LANG='C', PYTHONCOERCECLOCALE='0',
+                 PYTHONUTF8='0')
+        ENVIRONMENTS['C locale without UTF-8 mode'] += 1
+    paths = [a for a in args if a.startswith('/')]
+    dirs = set(os.path.dirname(a) for a in paths)
+    if cwd is None and len(dirs) == 1 and (h // 20) % 3 == 0:
+        cwd = dirs.pop()
+        args = [os.path.basename(a) if a.startswith('/') else a
+                for a in args]
+        ENVIRONMENTS['relative paths'] += 1
+    ENVIRONMENTS['hash seed %s' % hashseed] += 1
     if env:
         e.update(env)
     # the script directory becomes sys.path[0], so `import trees` resolves to
